@@ -107,6 +107,14 @@ fn scenario(rng: &mut Rng, append_mode: bool, events: &Events, problems: &mut Ve
     } else {
         Arc::new(FileAppender::builder().append(append_mode).encoder(Box::new(ShapeEncoder { events: events.clone() })).build(&path).unwrap())
     };
+    // every fourth append-mode scenario has a successor: a second appender opened on the same path while the first
+    // is alive (what a reconfiguration does) - it takes over after the threads are done and appends one more record,
+    // which has to land at the end of the file as it is then
+    let successor: Option<FileAppender> = if append_mode && run_no % 4 == 2 {
+        Some(FileAppender::builder().append(true).encoder(Box::new(ShapeEncoder { events: events.clone() })).build(&path).unwrap())
+    } else {
+        None
+    };
     // the first scenario of a batch is one long lifetime: three threads, 60 records each
     let long = run_no == 0;
     let nthreads = if long { 3 } else { 1 + rng.below(3) };
@@ -145,6 +153,7 @@ fn scenario(rng: &mut Rng, append_mode: bool, events: &Events, problems: &mut Ve
     })));
     let barrier = Arc::new(Barrier::new(nthreads as usize));
     let mut handles = vec![];
+    let first_plan_len = plans[0].len() as u64;
     for (ti, plan) in plans.into_iter().enumerate() {
         let t = ti as u64 + 1;
         let a = appender.clone();
@@ -178,6 +187,18 @@ fn scenario(rng: &mut Rng, append_mode: bool, events: &Events, problems: &mut Ve
     }
     for h in handles {
         problems.extend(h.join().unwrap());
+    }
+    if let Some(b) = successor {
+        drop(appender);
+        let (t, i, shape) = (1u64, first_plan_len + 1, vec![2u64, 1]);
+        TID.with(|x| *x.borrow_mut() = (t, i, shape.clone()));
+        events.lock().unwrap().push(json!({"e": "begin", "t": t, "i": i, "shape": shape}));
+        let r = catch(|| b.append(&log::Record::builder().level(log::Level::Info).args(format_args!("x")).build()));
+        let ok = matches!(r, Ok(Ok(())));
+        events.lock().unwrap().push(json!({"e": "end", "t": t, "i": i, "ok": ok}));
+        if !ok {
+            problems.push(json!({"what": "append through the successor failed or panicked", "detail": format!("{:?}", r.map(|x| x.map_err(|e| e.to_string())))}));
+        }
     }
     log4rs::verif::set_global_callback(None);
 }
